@@ -1795,7 +1795,26 @@ func genC20(c *Ctx) {
 			}
 		}
 		queries = append(queries, make([]byte, 29), share.ParitySharesNamespace.Bytes())
+		// namespaces that differ from a present one ONLY in the version byte
+		for _, ns := range nss[:1] {
+			v := append([]byte{}, ns...)
+			v[0] ^= 0x01
+			queries = append(queries, v)
+		}
 		sharesHex := joinHexList(raws)
+		if i%6 == 5 && n >= 3 {
+			// the same shares in an order that is NOT sorted (the function only promises something for sorted
+			// lists; model and code must still agree on what it returns)
+			perm := append([][]byte{}, raws...)
+			for k := len(perm) - 1; k > 0; k-- {
+				j := r.Intn(k + 1)
+				perm[k], perm[j] = perm[j], perm[k]
+			}
+			for _, q := range queries[:min(len(queries), 6)] {
+				c.add("nsrange", hx(q), joinHexList(perm))
+			}
+			c.count("nsrange_unsorted_list")
+		}
 		for _, q := range queries {
 			c.add("nsrange", hx(q), sharesHex)
 			rg := share.GetShareRangeForNamespace(sharesOf(raws), nsOf(q))
